@@ -104,16 +104,6 @@ pub struct QueryStats {
     pub prefix_multi: u64,
 }
 
-impl QueryStats {
-    pub fn add(&mut self, o: &QueryStats) {
-        self.exact_hits += o.exact_hits;
-        self.exact_misses += o.exact_misses;
-        self.prefix_queries += o.prefix_queries;
-        self.prefix_results += o.prefix_results;
-        self.prefix_multi += o.prefix_multi;
-    }
-}
-
 /// The statement's oracle for one queryable object: exact queries for every key and prefix
 /// queries for every probe equal the flat model; prefix results strictly ascending, no tombstones.
 pub fn check_queries<Q: Query>(q: &Q, model: &Model, names: &[String], keys: &[K], probes: &[K], what: &str, st: &mut QueryStats) -> Result<(), String> {
